@@ -161,6 +161,14 @@ def rigid_body_records(tier, seed, n0):
             h.append(rng.choice(({"op": "cf", "b1": b1, "b2": b2, "bp": rng.choice(("brute", "tree")), "det": False, "how": "-"},
                                  {"op": "tree", "b1": b1, "b2": b1, "bp": "-", "det": False, "how": "-"},
                                  {"op": "aabb", "b1": b1, "b2": b1, "bp": "-", "det": False, "how": "-"})))
+            if rng.random() < 0.35:      # the user moves a body (possibly back to the pose it had at the start)
+                h.append({"op": "move", "b1": b1, "b2": b1, "bp": "-", "det": False, "how": rng.choice(("inplace", "assign")), "back": rng.random() < 0.5})
+        if i % 3 == 0:
+            # the history TLC finds against a box kept per pose value (HydroSession, BoxCache = "by_pose_value")
+            b1, b2 = rng.sample(c16.NAMES, 2)
+            h = [{"op": "aabb", "b1": b1, "b2": b1, "bp": "-", "det": False, "how": "-"},
+                 {"op": "cf", "b1": b1, "b2": b2, "bp": rng.choice(("brute", "tree")), "det": False, "how": "-"},
+                 {"op": "move", "b1": b1, "b2": b1, "bp": "-", "det": False, "how": rng.choice(("inplace", "assign")), "back": True}]
         h += [{"op": "aabb", "b1": nm, "b2": nm, "bp": "-", "det": False, "how": "-"} for nm in c16.NAMES]
         ops.append((f"h{i}", seed * 104729 + i, h, None, True))
     from concurrent.futures import ProcessPoolExecutor
